@@ -7,6 +7,7 @@ import (
 
 	"github.com/zitadel/saml/pkg/provider/xml/md"
 	"github.com/zitadel/saml/pkg/provider/xml/samlp"
+	"github.com/zitadel/saml/pkg/provider/xml/xml_dsig"
 )
 
 // Hooks for the verification harness in /verif (build tag "verif"): thin wrappers that expose unexported pieces so
@@ -30,4 +31,20 @@ func VerifDestinationOfAuthRequest(metadata *md.IDPSSODescriptorType, request *s
 // VerifDestinationOfAttrQuery runs the Destination check of the attribute query handler.
 func VerifDestinationOfAttrQuery(metadata *md.AttributeAuthorityDescriptorType, request *samlp.AttributeQueryType) error {
 	return verifyRequestDestinationOfAttrQuery(metadata, request)
+}
+
+// VerifCheckRequestTime runs the validity-window check of the single sign-on and logout handlers on the two instants.
+func VerifCheckRequestTime(notBefore, notOnOrAfter, timeFormat string) error {
+	return checkIfRequestTimeIsStillValid(func() string { return notBefore }, func() string { return notOnOrAfter }, timeFormat)()
+}
+
+// VerifSignatureNecessary runs the four functions that decide whether a signature or a certificate has to be checked, and the certificate check.
+func VerifSignatureNecessary(idp *md.IDPSSODescriptorType, sp *md.EntityDescriptorType, sig *xml_dsig.SignatureType, sigParam, binding string) (provided, post, redirect, cert, certRefused bool) {
+	idpF := func() *md.IDPSSODescriptorType { return idp }
+	spF := func() *md.EntityDescriptorType { return sp }
+	sigF := func() *xml_dsig.SignatureType { return sig }
+	bindingF := func() string { return binding }
+	return signaturePostProvided(sigF)(), signaturePostVerificationNecessary(idpF, spF, sigF, bindingF)(),
+		signatureRedirectVerificationNecessary(idpF, spF, func() string { return sigParam }, bindingF)(), certificateCheckNecessary(sigF, spF)(),
+		checkCertificate(sigF, spF)() != nil
 }
